@@ -64,7 +64,8 @@ def run(rep) -> None:
         for literal in (False, True):
             sub = d / f"codec{int(literal)}"
             sub.mkdir()
-            res, descs, cases, out, gens = codec.observe(sub, 2, None, cfg={"literal_enums": literal})
+            res, descs, cases, out, gens = codec.observe(sub, 2 if quick else 3, None if quick else ["none", "str", "date", "datetime", "enums", "modelM", "modelN", "listint", "listM"],
+                                                         cfg={"literal_enums": literal})
             rep.tlc(res)
             validity = codec.screen_validity([(codec.schema_of(p["d"]), [codec.WIRE[w] for w in codec.WIRESEQ[1:]]) for p in descs])
             for p, c, val in zip(descs, cases, validity):
